@@ -97,12 +97,12 @@ def call_text(kind, call, site, style):
         return "%s(%s)" % (target, args_text(call, site))
     if kind == "method":
         if variant == 0:
-            return "c.f(%s)" % args_text(call, site)
-        return "C.f(%s)" % args_text(call, site, first="c")
+            return "obj.f(%s)" % args_text(call, site)
+        return "C.f(%s)" % args_text(call, site, first="obj")
     # classmethod / staticmethod: through the class or through an instance
     if variant == 0:
         return "C.f(%s)" % args_text(call, site)
-    return "c.f(%s)" % args_text(call, site)
+    return "obj.f(%s)" % args_text(call, site)
 
 
 def render_sig_program(kind, sig, calls):
@@ -112,7 +112,7 @@ def render_sig_program(kind, sig, calls):
     split = (n + 1) // 2
     m = "G = %d\n\n\n%s\n\n%s\n\n" % (INTRO_VALUE, SHOW, def_block(sig, kind, ["_show(locals(), G)"]))
     if kind != "function" and kind != "constructor":
-        m += "c = C()\n"
+        m += "obj = C()\n"
     info = []
     for k in range(split):
         m += "%s  # s%d\n" % (call_text(kind, calls[k], k, (1, k % 2)), k)
@@ -123,7 +123,7 @@ def render_sig_program(kind, sig, calls):
     else:
         nsrc += "from m import C\n"
         if kind != "constructor":
-            nsrc += "c = C()\n"
+            nsrc += "obj = C()\n"
     for k in range(split, n):
         nsrc += "%s  # s%d\n" % (call_text(kind, calls[k], k, (2, k % 2)), k)
         info.append(("n.py", "# s%d" % k))
@@ -291,9 +291,9 @@ def inline_site_lines(kind, call, k, mod, variant, ctx, cx, hostvar=False, argva
         target = "m.f" if (mod == 2 and variant == 1) else "f"
         expr = "%s(%s)" % (target, atext)
     elif kind == "method":
-        expr = "c.f(%s)" % atext
+        expr = "obj.f(%s)" % atext
     else:
-        owner = "c" if variant == 1 else "C"
+        owner = "obj" if variant == 1 else "C"
         expr = "%s.f(%s)" % (owner, atext)
     out = ["print('site', %d)" % k]
     if hv:
@@ -331,7 +331,7 @@ def render_inline_program(kind, sig, sites, dims):
         m += "    " + head + "".join("        " + l + "\n" for l in body)
     m += "\n\n"
     if kind != "function":
-        m += "c = C()\n"
+        m += "obj = C()\n"
     n = "import m\n"
     uses_from = any(s["m"] == 2 and not (kind == "function" and dims["variant"][k] == 1)
                     for k, s in enumerate(sites))
@@ -340,7 +340,7 @@ def render_inline_program(kind, sig, sites, dims):
             n += "from m import f\n"
     else:
         n += "from m import C\n"
-        n += "c = C()\n"
+        n += "obj = C()\n"
     ind = "    " if host else ""
     if host:
         if any(s["m"] == 1 for s in sites):
